@@ -96,6 +96,13 @@ CHECKS = {
             "must propose identical points there and in a 6-round continuation.",
             "Shadows are fed the reference run's RNG answers; a different question counts as divergence. StoSOO/StroquOOL are outside the statement.",
             "stateless bounded-exhaustive enumeration of reward sequences and query placements with lock-step differential (shadow) execution"),
+    "C16": ("model_checking", "3 C16",
+            "All algorithm variants x 11 partitions x 3 boxes: every reward sequence in {0,1,-1}^T (RNG answers enumerated as interval "
+            "fractions, <=1 deviation) in lock-step with shadow instances on affine images of the box (7 exact maps compared bit-exactly "
+            "where the partition arithmetic is dyadic, 2 inexact maps to 1e-9), plus long runs on rewards that are a function of the "
+            "normalised coordinate; point sequences and recommendations must be the images.",
+            "Dyadic split-fraction menu; default-delta DOO shadowed by translations only; Zooming / default-delta DOO not judged under inexact arithmetic.",
+            "stateless bounded-exhaustive script enumeration with lock-step differential (shadow) execution on affine images"),
 }
 
 LATER = {
